@@ -14,7 +14,9 @@ import Thanos.Model.Sharding
     split.align  <start> <end> <step>                -> <start'> <end'> | panic
 
   C43 ops (grammar in harness/cmd/frontend/c43.go):
-    key.range RANGE | key.labels LABELS | key.series SERIES       -> <hex key> | panic | invalid
+    key.range RANGE | key.labels LABELS | key.series SERIES       -> <hex key> | panic | invalid | render-mismatch
+    (key.url.labels / key.url.series / key.pair.url.*: the same requests, built by the real codec from a URL on the Go side;
+     LABELS / SERIES carry the matcher text AND the matcher sets: render-mismatch = `Rendered text sets` fails)
     key.pair.range RANGE "|" RANGE  (also .labels, .series, .cross LABELS "|" SERIES)
                                                                   -> <hex key A> <hex key B> | panic | invalid
     key.tenant <tenant>                                           -> ok | invalid
@@ -71,16 +73,28 @@ def pRange : List String → Option RangeReq
            engine := ← pStr eng, partialResp := ← pBool pr, replicas := ← pStrList ',' repl, analyze := ← pBool an }
   | _ => none
 
-def pLabels : List String → Option LabelsReq
-  | [tn, lb, _sels, text, st, split, pr] => do
-    pure { tenant := ← pStr tn, label := ← pStr lb, matchers := ← pStr text, start := ← parseInt? st,
-           splitMs := ← parseInt? split, partialResp := ← pBool pr }
+/-- `<hexname>.<op>.<hexvalue>` -/
+def pMatcher (t : String) : Option Matcher :=
+  match splitChar '.' t with
+  | [n, o, v] => do
+    let op ← parseNat? o
+    if op > 3 then none else pure ⟨← pStr n, op, ← pStr v⟩
   | _ => none
 
-def pSeries : List String → Option SeriesReq
-  | [tn, _sels, text, st, split, pr, repl] => do
-    pure { tenant := ← pStr tn, matchers := ← pStr text, start := ← parseInt? st, splitMs := ← parseInt? split,
-           partialResp := ← pBool pr, replicas := ← pStrList ',' repl }
+/-- `set;set` with `set = m,m`; `-` = no selector -/
+def pSets (t : String) : Option (List (List Matcher)) :=
+  (listOf ';' t).mapM fun e => (listOf ',' e).mapM pMatcher
+
+def pLabels : List String → Option (LabelsReq × List (List Matcher))
+  | [tn, lb, _sels, text, sets, st, split, pr] => do
+    pure ({ tenant := ← pStr tn, label := ← pStr lb, matchers := ← pStr text, start := ← parseInt? st,
+            splitMs := ← parseInt? split, partialResp := ← pBool pr }, ← pSets sets)
+  | _ => none
+
+def pSeries : List String → Option (SeriesReq × List (List Matcher))
+  | [tn, _sels, text, sets, st, split, pr, repl] => do
+    pure ({ tenant := ← pStr tn, matchers := ← pStr text, start := ← parseInt? st, splitMs := ← parseInt? split,
+            partialResp := ← pBool pr, replicas := ← pStrList ',' repl }, ← pSets sets)
   | _ => none
 
 /-- what resultsCache.Do would use as key: tenant resolver first, then GenerateCacheKey -/
@@ -90,8 +104,19 @@ def keyAnswer (tenant : Str) (k : Option Str) : String :=
   | none => "panic"
   | some k => hexEncode (String.ofList k).toUTF8.toList
 
+/-- the rendering hypothesis of `C43_labels_sets` / `C43_series_sets`, checked on the real text -/
+def renderedAnswer (text : Str) (sets : List (List Matcher)) (ans : String) : String :=
+  if Rendered text sets then ans else "render-mismatch"
+
+def labelsAnswer (p : LabelsReq × List (List Matcher)) : String :=
+  renderedAnswer p.1.matchers p.2 (keyAnswer p.1.tenant (labelsKey p.1))
+
+def seriesAnswer (p : SeriesReq × List (List Matcher)) : String :=
+  renderedAnswer p.1.matchers p.2 (keyAnswer p.1.tenant (seriesKey p.1))
+
 def pairAnswer (a b : String) : String :=
-  if a = "panic" ∨ b = "panic" then "panic"
+  if a = "render-mismatch" ∨ b = "render-mismatch" then "render-mismatch"
+  else if a = "panic" ∨ b = "panic" then "panic"
   else if a = "invalid" ∨ b = "invalid" then "invalid"
   else a ++ " " ++ b
 
@@ -105,13 +130,13 @@ def handleC43 : List String → String
     match pRange rest with
     | some r => keyAnswer r.tenant (rangeKey r)
     | none => "bad-op"
-  | "key.labels" :: rest =>
+  | "key.labels" :: rest | "key.url.labels" :: rest =>
     match pLabels rest with
-    | some r => keyAnswer r.tenant (labelsKey r)
+    | some r => labelsAnswer r
     | none => "bad-op"
-  | "key.series" :: rest =>
+  | "key.series" :: rest | "key.url.series" :: rest =>
     match pSeries rest with
-    | some r => keyAnswer r.tenant (seriesKey r)
+    | some r => seriesAnswer r
     | none => "bad-op"
   | "key.pair.range" :: rest =>
     match splitBar rest with
@@ -120,25 +145,25 @@ def handleC43 : List String → String
       | some a, some b => pairAnswer (keyAnswer a.tenant (rangeKey a)) (keyAnswer b.tenant (rangeKey b))
       | _, _ => "bad-op"
     | none => "bad-op"
-  | "key.pair.labels" :: rest =>
+  | "key.pair.labels" :: rest | "key.pair.url.labels" :: rest =>
     match splitBar rest with
     | some (a, b) =>
       match pLabels a, pLabels b with
-      | some a, some b => pairAnswer (keyAnswer a.tenant (labelsKey a)) (keyAnswer b.tenant (labelsKey b))
+      | some a, some b => pairAnswer (labelsAnswer a) (labelsAnswer b)
       | _, _ => "bad-op"
     | none => "bad-op"
-  | "key.pair.series" :: rest =>
+  | "key.pair.series" :: rest | "key.pair.url.series" :: rest =>
     match splitBar rest with
     | some (a, b) =>
       match pSeries a, pSeries b with
-      | some a, some b => pairAnswer (keyAnswer a.tenant (seriesKey a)) (keyAnswer b.tenant (seriesKey b))
+      | some a, some b => pairAnswer (seriesAnswer a) (seriesAnswer b)
       | _, _ => "bad-op"
     | none => "bad-op"
   | "key.pair.cross" :: rest =>
     match splitBar rest with
     | some (a, b) =>
       match pLabels a, pSeries b with
-      | some a, some b => pairAnswer (keyAnswer a.tenant (labelsKey a)) (keyAnswer b.tenant (seriesKey b))
+      | some a, some b => pairAnswer (labelsAnswer a) (seriesAnswer b)
       | _, _ => "bad-op"
     | none => "bad-op"
   | ["key.tenant", t] =>
